@@ -70,6 +70,14 @@ if per:
         tot = [a + b for a, b in zip(tot, per[k])]
     out.append(f"| **all** | **{tot[0]}** | **{tot[1]}** | **{tot[2]}** | **{tot[3]}** |")
     out.append("")
+out += ["## Appendix E — rules each property's check runs (from the last evidence files)", "",
+        "| property | rules (obligations discharged / raised) |", "|---|---|"]
+for f in sorted(glob.glob(os.path.join(V, "evidence", "C*.json"))):
+    e = json.load(open(f))
+    cells = [f"{s_['rule']} ({s_['discharged']}/{s_['obligations']})" for s_ in e["coverage"]["samples"]]
+    out.append(f"| {e['property_id']} | {', '.join(cells)} |")
+out += ["", "A rule listed under several properties is the same code run on the same source; it is listed where "
+        "breaking it breaks that property (the reason is a comment at the inclusion in `pgv/rules/Cnn.py`).", ""]
 p = os.path.join(V, "DESIGN.md")
 s = open(p).read()
 block = "<!-- GENERATED-APPENDIX-BEGIN -->\n" + "\n".join(out) + "\n<!-- GENERATED-APPENDIX-END -->\n"
